@@ -23,7 +23,7 @@ type concWorld struct {
 	res         []*OpResult
 	tasks       []*Task
 	incarnation int
-	abandon     bool // requests get a client context of their own, which the schedule may cancel
+	abandon     bool      // requests get a client context of their own, which the schedule may cancel
 	twin        *Instance // a second instance that was let onto the same storage directory while the first one serves
 	shared      bool      // two instances have had the storage directory open at once
 	pruning     bool      // later incarnations run with periodic pruning switched on
